@@ -18,7 +18,9 @@ _AnyNumber = Union[int, decimal.Decimal, 'NumberExpr']
 
 
 def _add_expr_from_value(value: decimal.Decimal) -> NumberAddExpr:
-    # exact for a Decimal (abs() would round it to the context precision); an int is accepted as well
+    if isinstance(value, int):
+        value = decimal.Decimal(value)  # an int is accepted as well; the token holds a Decimal (int / int would be a float)
+    # exact for a Decimal (abs() would round it to the context precision)
     number_token = number.Number.from_value(value.copy_abs() if isinstance(value, decimal.Decimal) else abs(value))
     token_store = base.TokenStore.from_tokens([number_token])
     atom_expr: NumberAtomExpr
